@@ -342,9 +342,10 @@ def ordering(check, prog):
             e = v[3][0][0]
             if itr == ('call', 'zip', (names, params), ()):
                 key, val = v[2][1]
-                want = ('idx', e, num(1)) if attr is None else \
-                    ('attr', ('idx', e, num(1)), attr)
-                ok = key == ('idx', e, num(0)) and val == want
+                lid = e[2]
+                en, ep = intern(('elem', names, lid)), intern(('elem', params, lid))
+                want = ep if attr is None else intern(('attr', ep, attr))
+                ok = key == en and val == want
         check.require(ok, 'G3-name-keyed-order', 'Model.' + prop,
                       'name i is paired with prior i%s' % (
                           "'s guess" if attr else ''), prog.loc(q, fd),
